@@ -68,7 +68,7 @@ def gen(rng, tier, index):
     if cfg["persistence"] and rng.random() < 0.2:
         # ids handed out, then one scheduled save fails with a transient error, no further change, clean stop
         ops.append(["line", "255;255;3;0;3;"])
-        ops.append(["fault_tick", rng.choice(["write", "fsync", "rename", "rename2", "rename2", "remove"]), rng.choice(["EIO", "EACCES", "ENOSPC", "ETIMEDOUT"])])
+        ops.append(["fault_tick", rng.choice(["write", "fsync", "rename", "rename2", "rename2", "remove"]), rng.choice(["EIO", "EACCES", "ENOSPC", "ETIMEDOUT", "NOMEM"])])
         ops.append(["restart"])
         ops.append(["line", "255;255;3;0;3;"])
     elif cfg["persistence"] and rng.random() < 0.15:
